@@ -978,6 +978,13 @@ func ParseCIDR(cidr string) ([]*net.IPNet, error) {
 		if err != nil {
 			return nil, fmt.Errorf("invalid CIDR %q", cidr)
 		}
+		// An IPv4-mapped IPv6 prefix (::ffff:a.b.c.d/96+n) denotes IPv4 addresses: keep it in the
+		// canonical 4 bytes form, so that overlap checks and family detection see the IPv4 prefix.
+		if ip4 := n.IP.To4(); ip4 != nil && len(n.Mask) == net.IPv6len {
+			if ones, _ := n.Mask.Size(); ones >= 96 {
+				n = &net.IPNet{IP: ip4, Mask: net.CIDRMask(ones-96, 32)}
+			}
+		}
 		return []*net.IPNet{n}, nil
 	}
 
